@@ -73,7 +73,11 @@ impl<T> InnerQueue<T> {
         match self.queue.pop() {
             Some(data) => Ok(data),
             None => match self.tx_ports.load(Ordering::Acquire) {
-                0 => Err(RecvTimeoutError::Disconnected),
+                0 => {
+                    // pass the disconnect token on to the next receiver
+                    self.sem.post();
+                    Err(RecvTimeoutError::Disconnected)
+                }
                 _n => unreachable!("mpmc recv found no data"),
             },
         }
@@ -90,7 +94,11 @@ impl<T> InnerQueue<T> {
         match self.queue.pop() {
             Some(data) => Ok(data),
             None => match self.tx_ports.load(Ordering::Acquire) {
-                0 => Err(TryRecvError::Disconnected),
+                0 => {
+                    // pass the disconnect token on to the next receiver
+                    self.sem.post();
+                    Err(TryRecvError::Disconnected)
+                }
                 _ => unreachable!("mpmc try_recv found no data"),
             },
         }
@@ -106,10 +114,9 @@ impl<T> InnerQueue<T> {
                 #[cfg(may_verif)]
                 may_queue::verif::point(may_queue::verif::site::CH_MPMC_DROPTX_SUBBED, self as *const _ as usize);
                 // there is no tx port any more
-                // should tell all the waited rx to come back
-                while self.sem.get_value() == 0 {
-                    self.sem.post();
-                }
+                // should tell all the waited rx to come back: post one extra
+                // token that has no data, each receiver that gets it passes it on
+                self.sem.post();
             }
             n if n > 1 => {}
             n => panic!("bad number of tx_ports left {n}"),
